@@ -20,6 +20,8 @@ NORMAL_UN = {"logical_not": "~", "bitwise_not": "~", "invert": "~", "negative": 
 MUTATORS = {"append", "extend", "insert", "pop", "remove", "clear", "update", "setdefault", "add",
             "sort", "reverse", "popitem", "discard"}
 
+AXIS_PARAM_NAMES = {"num_rows", "n_rows", "rows", "height", "maze_height", "grid_height", "num_cols", "n_cols", "cols",
+                    "width", "maze_width", "grid_width", "row", "col"}
 REPLACE_FUNCS = {"dataclasses.replace", "chex.dataclass.replace"}
 
 
@@ -296,6 +298,9 @@ class CallMixin:
         frame = Frame(f, f.module, scope, st, cls if cls is not None else f.cls, depth)
         fr_def = Frame(f, f.module, Scope(closure), st, cls, depth)
         self.bind(f, self_term, args, kw, scope, fr_def)
+        for pn, pv in scope.vars.items():
+            if pn in AXIS_PARAM_NAMES:
+                self.bindings.append((f, pn, pv, fr.func if fr is not None else None, node))
         # parameter types from annotations
         a = f.node.args
         for p in a.posonlyargs + a.args + a.kwonlyargs:
